@@ -123,6 +123,16 @@ Example c06_ip_nonvacuous :
      = [((0, C2A), 0); ((0, C2A), 1); ((0, C2A), 2); ((1, C2A), 0); ((1, C2A), 1); ((1, C2A), 2); ((2, C2A), 0)].
 Proof. cbv zeta. repeat split; vm_compute; reflexivity. Qed.
 
+(* a block that decrypts but makes the HTTP layer raise is accepted exactly once and kills the epoch *)
+Example c06_ip_bad_block :
+  let h1 := [Send 1 0; Next; NextBad] in
+  failed_in (i_log (ip_run ip_init [Send 1 0; Send 1 0; Next; NextBad])) 0 = true
+  /\ l_acc (i_log (ip_run ip_init (h1 ++ [Replay 1; Replay 0; Next; Send 1 0]))) = [((0, A2C), 0); ((0, A2C), 1)]
+  /\ l_open (i_log (ip_run ip_init (h1 ++ [Replay 1; Replay 0; Next; Send 1 0])))
+     = [(((0, A2C), 0), true); (((0, A2C), 1), true)]
+  /\ l_wire (i_log (ip_run ip_init (h1 ++ [Replay 1; Replay 0; Next; Send 1 0]))) = [((0, C2A), 0)].
+Proof. cbv zeta. repeat split; vm_compute; reflexivity. Qed.
+
 Example c06_ble_nonvacuous :
   let h1 := [Send 30 1; Send 1 0; Next; Next; Corrupt] in
   let h2 := [Send 1 0; Reconnect; Send 0 0; Next; Send 1 0; Cancel; Send 1 0] in
